@@ -27,12 +27,14 @@ RULE = ("adversarial (schema, query) texts, one isolated worker process each: fr
         "degenerate and broken schemas (SDL and JSON); truncations, byte flips and bracket insertions of valid documents and "
         "schemas; every failing schema / query file followed, in the same worker process (panics caught, as rustc does for "
         "proc macros), by itself again and by valid inputs over the same and other paths; the CLI delivery of the generator "
-        "(output piped through rustfmt) on operations of 200 - 4,000 fields, command and formatter watched as one process tree. Non-trivial = every input except the "
+        "(output piped through rustfmt) on operations of 200 - 4,000 fields, command and formatter watched as one process tree; long acyclic chains "
+        "(input types I0 -> I1 -> ... up to 3,000 / 6,000, fragment spread chains up to 1,000 / 2,500 with fields, as pure aliases, and carrying __typename for an interface) - flat "
+        "texts that become deep walks inside the generator; exit judged, CPU time not (hazard corpus: the 60,000-type chain of K10). Non-trivial = every input except the "
         "unmodified controls; distinct by (schema text, query text)")
 
 CPU_LIMIT_S = 20.0
 FLOOR = {"class:spread-cycle": 60, "class:nesting": 20, "class:input-cycle": 15, "class:degenerate": 15, "class:schema-variant": 25,
-         "class:mutated-query": 300, "class:mutated-schema": 300, "exit:ok": 5, "exit:err": 100, "class:after-failure": 25, "after-failure-calls": 100, "class:abstract-cycle": 90, "class:cli-large-module": 6}
+         "class:mutated-query": 300, "class:mutated-schema": 300, "exit:ok": 5, "exit:err": 100, "class:after-failure": 25, "after-failure-calls": 100, "class:abstract-cycle": 90, "class:cli-large-module": 6, "class:long-chain": 9}
 
 
 def main(run):
@@ -114,8 +116,34 @@ def main(run):
         for l2, q in gen_adv.mutations_of(doc, rng, 1, 3):
             inputs.append(("mutated-query", label + " " + l2, cyc, q))
 
+    # long ACYCLIC chains: flat inputs (no nesting the parsers could refuse) that turn into deep walks inside the generator.
+    # Within the bounds below they must come back like anything else; CPU time is not judged for them (the walks are
+    # quadratic to cubic in the chain length, which is slow, not a loop). The 60,000-type input chain is finding K10.
+    def input_chain(n):
+        return ("".join("input I%d { next: I%d v: Int }\n" % (i, i + 1) for i in range(n)) + "input I%d { v: Int }\n" % n + "type Query { f(a: I0): Int }\n",
+                "query Q($a: I0) { f(a: $a) }\n")
+
+    def fragment_chain(n, alias_only=False, typename=False):
+        body = "" if alias_only else ("__typename id " if typename else "id ")
+        return ("interface N { id: ID }\ntype Query { a: A n: N }\ntype A implements N { id: ID a: A }\n",
+                "query Q { %s { ...F0 } }\n" % ("n" if typename else "a") + "".join("fragment F%d on %s { %s...F%d }\n" % (i, "N" if typename else "A", body, i + 1) for i in range(n))
+                + "fragment F%d on %s { %sid }\n" % (n, "N" if typename else "A", "__typename " if typename else ""))
+    chains = [("input-chain-%d" % n, input_chain(n)) for n in (500, 2000, run.size(3000, 6000))]
+    chains += [("fragment-chain-%d" % n, fragment_chain(n)) for n in (300, run.size(1000, 2500))]
+    chains += [("alias-fragment-chain-%d" % n, fragment_chain(n, alias_only=True)) for n in (300, run.size(1000, 2500))]
+    chains += [("typename-through-fragment-chain-%d" % n, fragment_chain(n, typename=True)) for n in (300, run.size(1000, 2500))]
+    for ci, (label, (stext, q)) in enumerate(chains):
+        p = os.path.join(work, "chain%d.graphql" % ci)
+        open(p, "w").write(stext)
+        inputs.append(("long-chain", label, p, q))
+    p = os.path.join(work, "chain_k10.graphql")
+    open(p, "w").write(input_chain(60000)[0])
+    inputs.append(("long-chain-hazard", "input-chain-60000", p, input_chain(60000)[1]))
+
     def one(args):
         cls, label, sp, q = args
+        if cls.startswith("long-chain"):
+            return run_gendrv_one({"id": "x", "schema_path": sp, "query_text": q, "options": {"mode": "cli"}, "want": []}, cpu_s=600, as_bytes=8 << 30, wall_s=900)
         if cls == "after-failure":
             return run_gendrv_one(sp, cpu_s=120, as_bytes=8 << 30, wall_s=240, mode="serve")
         req = {"id": "x", "schema_path": sp, "query_text": q, "options": {"mode": "cli"}, "want": []}
@@ -137,7 +165,7 @@ def main(run):
             stext = open(sp, encoding="utf-8", errors="replace").read() if os.path.exists(sp) else None
         except OSError:
             stext = None
-        case = {"id": "%s:%s" % (cls, label), "corpus": "clean", "class": cls, "label": label, "doc_text": q if len(q) < 20000 else q[:2000] + "...(%d bytes)" % len(q),
+        case = {"id": "%s:%s" % (cls, label), "corpus": "hazard:K10" if cls == "long-chain-hazard" else "clean", "class": cls, "label": label, "doc_text": q if len(q) < 20000 else q[:2000] + "...(%d bytes)" % len(q),
                 "schema_text": stext if stext is None or len(stext) < 60000 else stext[:2000] + "...", "schema_ext": os.path.splitext(sp)[1][1:], "schema_missing": stext is None,
                 "full_doc_len": len(q)}
         if len(q) >= 20000:
@@ -154,7 +182,7 @@ def main(run):
             else:
                 run.inconclusive_case(case["id"], "wall-clock watchdog fired with %.1f s CPU" % r["cpu_s"])
                 continue
-        elif r["cpu_s"] >= CPU_LIMIT_S:
+        elif r["cpu_s"] >= CPU_LIMIT_S and not cls.startswith("long-chain"):
             sym = "cpu-time %.1f s on a %d-byte input (%s)" % (r["cpu_s"], len(q), cls)
         elif r["exit"] == 0:
             run.count("exit:ok")
@@ -169,6 +197,8 @@ def main(run):
         if cls == "control" and r["exit"] != 0 and sym is None:
             run.inconclusive_case(case["id"], "control pair rejected: %s" % ((r.get("response") or {}).get("message") or r["stderr"])[:200])
             continue
+        if cls == "long-chain-hazard":
+            run.witness_result("K10", bool(sym))
         if sym:
             run.violation(case, sym, {"observation": {k: v for k, v in r.items() if k != "response"}})
         else:
